@@ -75,6 +75,51 @@ Proof.
   intros i j Hi Hj _. simpl in Hi, Hj. lia.
 Qed.
 
+(* histogram_quantile (Bucket.v: le parsing result, grouping of the bucket series into output series,
+   per-step buckets, bucketQuantile with its sort, merging of equal upper bounds, monotonicity repair,
+   bisection and interpolation; compared with the real operator on primitive floats on every run).
+   On exact numbers - any number type whose order is a strict total order and whose addition is
+   associative and commutative, instantiated on the rationals - its value at a step is a function of the
+   set of the step's bucket samples: neither the order of the buckets handed to bucketQuantile nor the
+   order in which the operand lists its samples matters. (On floats the counts of buckets with one upper
+   bound are added in arrival order, so the last bit may depend on it.) *)
+From Verif Require RangeArith Bucket BucketProofs.
+Theorem C06_histogram_quantile_independent_of_bucket_order : forall (pinf ninf q : Qcanon.Qc) l l',
+  Permutation.Permutation l l' ->
+  Bucket.bucket_quantile Qcanon.Qc BucketProofs.qcops pinf ninf q l = Bucket.bucket_quantile Qcanon.Qc BucketProofs.qcops pinf ninf q l'.
+Proof. exact BucketProofs.bucket_quantile_order_independent. Qed.
+Print Assumptions C06_histogram_quantile_independent_of_bucket_order.
+
+Theorem C06_histogram_step_independent_of_sample_order : forall (pinf ninf : Qcanon.Qc) nout idx q vec vec',
+  Permutation.Permutation vec vec' ->
+  Bucket.hist_step Qcanon.Qc BucketProofs.qcops pinf ninf nout idx q vec = Bucket.hist_step Qcanon.Qc BucketProofs.qcops pinf ninf nout idx q vec'.
+Proof. exact BucketProofs.hist_step_order_independent. Qed.
+Print Assumptions C06_histogram_step_independent_of_sample_order.
+
+(* for every number type with the stated order and addition laws *)
+Theorem C06_histogram_quantile_order_independent_generic : forall (V : Type) (o : RangeArith.ops V) (pinf ninf : V),
+  (forall a, RangeArith.ltb o a a = false) ->
+  (forall a b c, RangeArith.ltb o a b = true -> RangeArith.ltb o b c = true -> RangeArith.ltb o a c = true) ->
+  (forall a b, RangeArith.ltb o a b = false -> RangeArith.ltb o b a = false -> a = b) ->
+  (forall a b, RangeArith.eqb o a b = true <-> a = b) ->
+  (forall a b, RangeArith.add o a b = RangeArith.add o b a) ->
+  (forall a b c, RangeArith.add o (RangeArith.add o a b) c = RangeArith.add o a (RangeArith.add o b c)) ->
+  forall q l l', Permutation.Permutation l l' ->
+  Bucket.bucket_quantile V o pinf ninf q l = Bucket.bucket_quantile V o pinf ninf q l'.
+Proof. exact BucketProofs.bucket_quantile_perm. Qed.
+Print Assumptions C06_histogram_quantile_order_independent_generic.
+
+(* non-vacuity: the median of the histogram le=1:2, le=2:6, le=+Inf:8 (rank 4, second bucket: 1 + (2-1)*(4-2)/(6-2) = 3/2),
+   from the buckets in two orders, one of them with the second bucket split in two series *)
+Example C06_histogram_example :
+  let q := (Qcanon.Q2Qc (QArith_base.Qmake 1 2)) in
+  let n := fun z => Qcanon.Q2Qc (QArith_base.inject_Z z) in
+  let b := fun u c => Bucket.mkB Qcanon.Qc u (n c) in
+  Bucket.bucket_quantile Qcanon.Qc BucketProofs.qcops (n 0%Z) (n 0%Z) q [b (Some (n 1%Z)) 2%Z; b (Some (n 2%Z)) 6%Z; b None 8%Z] = Qcanon.Q2Qc (QArith_base.Qmake 3 2) /\
+  Bucket.bucket_quantile Qcanon.Qc BucketProofs.qcops (n 0%Z) (n 0%Z) q [b None 8%Z; b (Some (n 2%Z)) 1%Z; b (Some (n 1%Z)) 2%Z; b (Some (n 2%Z)) 5%Z] = Qcanon.Q2Qc (QArith_base.Qmake 3 2).
+Proof. cbv zeta. split; apply Qcanon.Qc_is_canon; vm_compute; reflexivity. Qed.
+
 (* PARTIAL. timestamp() is a known finding (F02): the full statement is false of
    the pinned engine. Values of the libm functions are not modelled; they are
-   decided by the reference oracle (profile func). *)
+   decided by the reference oracle (profile func); le="NaN" as an upper bound is outside the
+   histogram model. *)
